@@ -39,7 +39,7 @@ except BaseException:
 _FAILED = 'failed'
 
 
-class DaeMissingSampler2D(Exception):
+class DaeMissingSampler2D(DaeBrokenRefError):
     """Raised when a <texture> tag references a texture without a sampler."""
 
 
@@ -662,6 +662,9 @@ class Effect(DaeObject):
                         except DaeUnsupportedError as ex:
                             props[key] = None
                             collada.handleError(ex)
+                    else:
+                        # neither a sampler nor an image of that name: a broken reference
+                        raise
                 except DaeUnsupportedError as ex:
                     props[key] = None
                     collada.handleError(ex)  # Give the chance to ignore error and load the rest
